@@ -11,11 +11,12 @@
                                                                -> must be marked failed
                 grey       anything else                       -> either, but no panic / foreign bytes
    Symbols:  H '#'   0 1 2 digits   - minus   N line feed   _ space   x any other payload byte  *)
-EXTENDS Naturals, Sequences, FiniteSets, TLC, Json
+EXTENDS Integers, Sequences, FiniteSets, TLC, Json
 Sym   == {"H", "1", "2", "0", "-", "N", "x", "_"}
-Digit == {"0", "1", "2"}
+DigitChars == <<"0", "1", "2", "3", "4", "5", "6", "7", "8", "9">>
+Digit == {DigitChars[i] : i \in 1..10}       \* the exhaustive enumerations use only 0 1 2 (Sym); recorded traces use all ten
 Ws    == {"N", "_"}
-DVal(d) == CASE d = "0" -> 0 [] d = "1" -> 1 [] d = "2" -> 2
+DVal(d) == (CHOOSE i \in 1..10 : DigitChars[i] = d) - 1
 
 RECURSIVE Size(_, _, _, _)
 \* digits from position p: <<value, next position, digit count>>
@@ -79,7 +80,7 @@ TrimWs(s) == IF s # <<>> /\ s[1] \in Ws THEN TrimWs(Tail(s))
 
 \* ---------------- encoder: payload cut into chunks of the given sizes
 RECURSIVE Digits(_)
-Digits(n) == IF n < 10 THEN <<CASE n = 0 -> "0" [] n = 1 -> "1" [] n = 2 -> "2" [] OTHER -> "?">>
+Digits(n) == IF n < 10 THEN <<DigitChars[n + 1]>>
              ELSE Digits(n \div 10) \o Digits(n % 10)
 RECURSIVE Encode(_, _)
 Encode(payload, sizes) ==
